@@ -122,6 +122,13 @@ fn account(st: &mut Stats, scn: &Scn, out: &Outcome, item: &Item) {
     let full_prefix: Vec<u8> = out.rec.choices.iter().map(|c| c.chosen).collect();
     let full_ns: Vec<u8> = out.rec.choices.iter().map(|c| c.n).collect();
     let _ = item;
+    if out.rec.runaway {
+        st.machinery_errors.push(
+            "cleanup of an abandoned execution did not terminate (a loop in a destructor run while unwinding); shard ended early, findings so far are reported"
+                .to_string(),
+        );
+        st.capped = true;
+    }
     for f in oracles::judge(scn, out) {
         if f.prop == "MACHINERY" {
             st.machinery_errors.push(format!("{}: {}", f.sig, f.detail));
@@ -151,6 +158,30 @@ fn account(st: &mut Stats, scn: &Scn, out: &Outcome, item: &Item) {
 /// Explore every schedule of `scn` with at most `c` deviations. `shard` =
 /// (index, count): the DFS tree is cut at a frontier of prefixes which are
 /// dealt round-robin to the shards.
+fn partial_text(st: &Stats) -> String {
+    let clean = |s: &str| s.replace(['\t', '\n', '\r'], " ");
+    let csv = |v: &[u8]| v.iter().map(|x| x.to_string()).collect::<Vec<_>>().join(",");
+    let mut t = String::new();
+    t.push_str(&format!("STAT\tscenario\t{}\n", st.scenario));
+    t.push_str(&format!("STAT\tthreads\t{}\n", st.threads));
+    t.push_str(&format!("STAT\tbound\t{}\n", if st.bound == UNBOUNDED { -1 } else { st.bound as i64 }));
+    t.push_str(&format!("STAT\texecs\t{}\n", st.execs));
+    t.push_str(&format!("STAT\thorizons\t{}\n", st.horizons));
+    t.push_str(&format!("STAT\thangs\t{}\n", st.hangs));
+    for (sig, fr) in &st.findings {
+        t.push_str(&format!(
+            "FINDING\t{}\t{}\t{}\t{}\t{}\t{}\n",
+            fr.finding.prop,
+            clean(sig),
+            fr.count,
+            if fr.prefix.is_empty() { "-".to_string() } else { csv(&fr.prefix) },
+            if fr.expect_n.is_empty() { "-".to_string() } else { csv(&fr.expect_n) },
+            clean(&fr.finding.detail)
+        ));
+    }
+    t
+}
+
 pub fn explore(scn: &Scn, c: u32, shard: (usize, usize), cap: u64, deadline: Instant) -> Stats {
     let cy = scn.extra_yield;
     let t0 = Instant::now();
@@ -192,8 +223,12 @@ pub fn explore(scn: &Scn, c: u32, shard: (usize, usize), cap: u64, deadline: Ins
             None => break,
         };
         let out = run_one(scn, &opts_for(scn, &it.prefix, &it.expect_n, false, false));
-        if si == 0 {
+        if si == 0 || out.rec.runaway {
             account(&mut st, scn, &out, &it);
+        }
+        if out.rec.runaway {
+            st.wall_ms = t0.elapsed().as_millis() as u64;
+            return st;
         }
         let mut ch = Vec::new();
         children2(it.prefix.len(), it.cost, it.ycost, &out.rec.choices, c, cy, &mut ch);
@@ -224,8 +259,12 @@ pub fn explore(scn: &Scn, c: u32, shard: (usize, usize), cap: u64, deadline: Ins
                 break;
             }
         }
+        let nf = st.findings.len();
         let out = run_one(scn, &opts_for(scn, &it.prefix, &it.expect_n, false, false));
         account(&mut st, scn, &out, &it);
+        if st.findings.len() != nf || st.execs % 1024 == 0 {
+            crate::rt::set_partial(partial_text(&st));
+        }
         if !st.machinery_errors.is_empty() {
             break;
         }
